@@ -389,3 +389,150 @@ pub mod atomic {
         }
     }
 }
+
+// ---------------------------------------------------------------------------------------------
+// Arc: std's Arc behind a transparent wrapper whose reference-count operations are scheduling
+// points (clone, drop, strong_count) and release/acquire edges of the memory model.  The unsized
+// coercions and the `self: Arc<Self>` receivers the library uses need the unstable
+// CoerceUnsized / DispatchFromDyn / Receiver traits (the simulator is built with
+// RUSTC_BOOTSTRAP=1; nothing of this is compiled into the library proper).
+
+pub struct Arc<T: ?Sized> {
+    inner: std::sync::Arc<T>,
+}
+
+impl<T: ?Sized> Arc<T> {
+    #[inline]
+    fn loc(&self) -> usize {
+        std::sync::Arc::as_ptr(&self.inner) as *const () as usize
+    }
+    pub fn strong_count(this: &Self) -> usize {
+        if sim::on() {
+            sim::sp(sim::EV_LOAD, this.loc());
+        }
+        std::sync::Arc::strong_count(&this.inner)
+    }
+    pub fn ptr_eq(this: &Self, other: &Self) -> bool {
+        std::sync::Arc::ptr_eq(&this.inner, &other.inner)
+    }
+    pub fn as_ptr(this: &Self) -> *const T {
+        std::sync::Arc::as_ptr(&this.inner)
+    }
+}
+
+impl<T> Arc<T> {
+    pub fn new(v: T) -> Arc<T> {
+        Arc { inner: std::sync::Arc::new(v) }
+    }
+}
+
+impl<T: ?Sized> Clone for Arc<T> {
+    fn clone(&self) -> Arc<T> {
+        if !sim::on() {
+            return Arc { inner: std::sync::Arc::clone(&self.inner) };
+        }
+        let addr = self.loc();
+        sim::sp(sim::EV_RMW, addr);
+        let before = std::sync::Arc::strong_count(&self.inner) as u64;
+        let c = std::sync::Arc::clone(&self.inner);
+        sim::mm_rmw(addr, std::sync::atomic::Ordering::Relaxed, before, before + 1);
+        Arc { inner: c }
+    }
+}
+
+impl<T: ?Sized> Drop for Arc<T> {
+    fn drop(&mut self) {
+        // (the real decrement is the drop of `inner`, which follows this body with no scheduling
+        // point in between)
+        if !sim::on() {
+            return;
+        }
+        let addr = self.loc();
+        sim::sp(sim::EV_RMW, addr);
+        let before = std::sync::Arc::strong_count(&self.inner) as u64;
+        // release by every owner, acquire by the last one: modelled as AcqRel on the count
+        sim::mm_rmw(addr, std::sync::atomic::Ordering::AcqRel, before, before - 1);
+        if before == 1 {
+            sim::forget_loc(addr);
+        }
+    }
+}
+
+impl<T: ?Sized> std::ops::Deref for Arc<T> {
+    type Target = T;
+    #[inline]
+    fn deref(&self) -> &T {
+        &self.inner
+    }
+}
+
+impl<T: ?Sized + std::marker::Unsize<U>, U: ?Sized> std::ops::CoerceUnsized<Arc<U>> for Arc<T> {}
+impl<T: ?Sized + std::marker::Unsize<U>, U: ?Sized> std::ops::DispatchFromDyn<Arc<U>> for Arc<T> {}
+
+impl<T: ?Sized + std::fmt::Debug> std::fmt::Debug for Arc<T> {
+    fn fmt(&self, f: &mut std::fmt::Formatter<'_>) -> std::fmt::Result {
+        std::fmt::Debug::fmt(&**self, f)
+    }
+}
+
+impl<T: Default> Default for Arc<T> {
+    fn default() -> Arc<T> {
+        Arc::new(T::default())
+    }
+}
+
+impl<T> From<T> for Arc<T> {
+    fn from(v: T) -> Arc<T> {
+        Arc::new(v)
+    }
+}
+
+/// `Weak` companion of the wrapper above (a change to the library may well reach for it).
+pub struct Weak<T: ?Sized> {
+    inner: std::sync::Weak<T>,
+}
+
+impl<T: ?Sized> Arc<T> {
+    pub fn downgrade(this: &Self) -> Weak<T> {
+        Weak { inner: std::sync::Arc::downgrade(&this.inner) }
+    }
+    pub fn weak_count(this: &Self) -> usize {
+        std::sync::Arc::weak_count(&this.inner)
+    }
+    pub fn get_mut(this: &mut Self) -> Option<&mut T> {
+        std::sync::Arc::get_mut(&mut this.inner)
+    }
+}
+
+impl<T: ?Sized> Weak<T> {
+    pub fn upgrade(&self) -> Option<Arc<T>> {
+        if !sim::on() {
+            return self.inner.upgrade().map(|a| Arc { inner: a });
+        }
+        let addr = self.inner.as_ptr() as *const () as usize;
+        sim::sp(sim::EV_RMW, addr);
+        let before = self.inner.strong_count() as u64;
+        let r = self.inner.upgrade();
+        if r.is_some() {
+            sim::mm_rmw(addr, std::sync::atomic::Ordering::Acquire, before, before + 1);
+        }
+        r.map(|a| Arc { inner: a })
+    }
+    pub fn strong_count(&self) -> usize {
+        self.inner.strong_count()
+    }
+}
+
+impl<T: ?Sized> Clone for Weak<T> {
+    fn clone(&self) -> Weak<T> {
+        Weak { inner: self.inner.clone() }
+    }
+}
+
+impl<T: ?Sized + std::marker::Unsize<U>, U: ?Sized> std::ops::CoerceUnsized<Weak<U>> for Weak<T> {}
+
+impl<T: ?Sized> std::fmt::Debug for Weak<T> {
+    fn fmt(&self, f: &mut std::fmt::Formatter<'_>) -> std::fmt::Result {
+        write!(f, "(Weak)")
+    }
+}
